@@ -121,7 +121,7 @@ func sameRuleAsUnion(c *engine.Ctx) {
 }
 
 func pairCase(t *engine.T, A, B gen.ListSpec) *engine.Violation {
-	a, b := A.Build(), B.Build()
+	a, b := gen.SpareList(A.Build()), gen.SpareList(B.Build())
 	ma, mb := gen.ModelOf(a), gen.ModelOf(b)
 	x := a.Intersect(b)
 	t.Transitions(1)
@@ -172,6 +172,12 @@ func pairCase(t *engine.T, A, B gen.ListSpec) *engine.Violation {
 			return engine.Violate("intersect-edges-lower", "", "edge %s found in both operands with surviving endpoints is missing", e)
 		}
 	}
+	// the owner of the result uses it (adds a node, an edge, a root); what later calls return is not affected
+	c09.UseResult(x)
+	if again := a.Intersect(b); gen.ModelOf(again).SetKey() != mx.SetKey() {
+		return engine.Violate("intersect-nodes", "after-result-used", "A∩B computed again after the first result was edited by its owner = %s, before = %s", gen.ModelOf(again).SetKey(), mx.SetKey())
+	}
+	t.Transitions(1)
 	// commutative on the three sets
 	y := B.Build().Intersect(A.Build())
 	t.Transitions(1)
